@@ -422,8 +422,8 @@ class FSM(object):
         Status: Mandatory
         """
 
-        if self.state in (bgp_cons.ST_OPENSENT, bgp_cons.ST_OPENCONFIRM):
-            # State OpenSent, event 24
+        if self.state in (bgp_cons.ST_OPENSENT, bgp_cons.ST_OPENCONFIRM, bgp_cons.ST_ESTABLISHED):
+            # State OpenSent, OpenConfirm, Established, event 24
             for timer in (self.connect_retry_timer, self.hold_timer, self.keep_alive_timer):
                 timer.cancel()
             self._close_connection()
